@@ -165,7 +165,7 @@ fn gen_fadt_set(s: &mut Choices) -> FadtSet {
         6 | 7 => FadtSet::Flag(s.below(25) as u8),
         8 => FadtSet::GpeInfo(s.u32(), s.u32(), s.u8(), s.u8(), s.u8()),
         9 => FadtSet::Profile(s.below(9) as u8),
-        10 => FadtSet::Field(s.below(43) as u8, s.u64()),
+        10 => FadtSet::Field(s.below(44) as u8, s.u64()),
         _ => FadtSet::FieldGas(s.below(11) as u8, gen_gas(s)),
     }
 }
